@@ -42,6 +42,9 @@ pub fn walk<F: Follower>(
 ) -> Result<(), Error> {
     let size = graph.len();
     let ids = 0..size;
+
+    validate(&graph)?;
+
     let mut atoms = graph.into_iter().enumerate().collect::<HashMap<_,_>>();
     let mut pool = JoinPool::new();
 
@@ -52,6 +55,47 @@ pub fn walk<F: Follower>(
         };
 
         walk_root(id, root, size, &mut atoms, follower, &mut pool)?;
+    }
+
+    Ok(())
+}
+
+// Checks that graph is a well-formed simple graph: every bond target
+// exists, no atom is bonded to itself, no pair is bonded twice, and every
+// bond has exactly one counterpart of compatible kind. The traversal only
+// sees the first half of a ring closure bond or of a bond into an already
+// written component, so all bonds are checked here, before anything is
+// reported to the follower.
+fn validate(graph: &Vec<Atom>) -> Result<(), Error> {
+    let mut halves = HashMap::new();
+
+    for (sid, atom) in graph.iter().enumerate() {
+        for bond in atom.bonds.iter() {
+            halves.entry((sid, bond.tid)).or_insert((0, &bond.kind)).0 += 1;
+        }
+    }
+
+    for (sid, atom) in graph.iter().enumerate() {
+        for bond in atom.bonds.iter() {
+            if bond.tid >= graph.len() {
+                return Err(Error::UnknownTarget(sid, bond.tid))
+            } else if bond.tid == sid {
+                return Err(Error::Loop(sid))
+            } else if halves[&(sid, bond.tid)].0 > 1 {
+                return Err(Error::DuplicateBond(sid, bond.tid))
+            }
+
+            match halves.get(&(bond.tid, sid)) {
+                None => return Err(Error::HalfBond(sid, bond.tid)),
+                Some((count, kind)) => {
+                    if *count > 1 {
+                        return Err(Error::DuplicateBond(sid, bond.tid))
+                    } else if bond.kind != kind.reverse() {
+                        return Err(Error::IncompatibleBond(bond.tid, sid))
+                    }
+                }
+            }
+        }
     }
 
     Ok(())
